@@ -197,31 +197,37 @@ def prov_root(v, depth=0):
 
 
 def m3(ctx, rep):
-    f = ctx.fn('write_multiple_files', file='cli/src/writer.rs')
+    # anchored on the public entry of the writer; local helpers (write_multiple_files, an `impl Output` method, a per-module
+    # helper ...) are expanded, so the rule sees the folder-mode loop wherever it lives
+    local = tuple(g['name'].split('::')[-1] for g in ctx.astq['functions'] if g['file'] == 'cli/src/writer.rs' and g['name'].split('::')[-1] not in ('write_generated', 'check_write_file'))
+    f = ctx.fnx('write_generated', file='cli/src/writer.rs', force=local, depth=4)
     site = {'file': f['file'], 'line': f['line']}
-    loops = [l for l in f['loops'] if l.get('kind') == 'for']
-    ok = False
-    if len(loops) == 1:
-        src, chain = vt.unvar(loops[0]['over']), []
+
+    def map_source(over):
+        src, chain = vt.unvar(over), []
         while isinstance(src, dict) and (src.get('k') in ('ref', 'paren') or (src.get('k') == 'call' and src.get('recv') is not None)):
             if src.get('k') == 'call':
                 chain.append(src.get('f'))
                 src = vt.unvar(src['recv'])
             else:
                 src = vt.unvar(src.get('v'))
-        map_p = next((q['name'] for q in f['params'] if 'BTreeMap' in str(q.get('ty') or '') or q['name'] == 'crate_parsed_data'), 'crate_parsed_data')
-        ok = isinstance(src, dict) and src.get('k') == 'atom' and src.get('root') == map_p and not src.get('path') and all(x in ('into_values', 'values', 'values_mut', 'into_iter', 'iter', 'iter_mut') for x in chain)
-    rep.check(ok, 'M3', 'write-loop:whole-map', 'for (_, parsed_data) in crate_parsed_data', f"write_multiple_files iterates `{vt.show(loops[0]['over'])[:60] if loops else '?'}`: every crate's data must be written, unfiltered", site)
-    gen = [c for c in f['calls'] if c.get('f') == 'generate_types']
-    wr = [c for c in f['calls'] if c.get('f') == 'check_write_file']
+        is_map = isinstance(src, dict) and src.get('k') == 'atom' and not src.get('path') and ('BTreeMap' in str(src.get('ty') or src.get('root_ty') or '') or src.get('root') == 'crate_parsed_data')
+        return is_map, chain
+    loops = [l for l in f['loops'] if l.get('kind') == 'for' and map_source(l['over'])[0]]
+    ok = len(loops) == 1 and all(x in ('into_values', 'values', 'values_mut', 'into_iter', 'iter', 'iter_mut') for x in map_source(loops[0]['over'])[1])
+    rep.check(ok, 'M3', 'write-loop:whole-map', 'for (_, parsed_data) in crate_parsed_data', f"folder mode iterates `{vt.show(loops[0]['over'])[:60] if loops else '?'}`: every crate's data must be written, unfiltered", site)
+    lkey = vt.ckey(loops[0]['over']) if loops else None
 
     def in_loop(c):
-        fr = [x for x in c['guard'] if x.get('k') in ('for', 'if', 'arm')]
-        return len(fr) == 1 and fr[0].get('k') == 'for'
-    rep.check(len(gen) == 1 and in_loop(gen[0]) and len(wr) == 1 and in_loop(wr[0]), 'M3', 'write-loop:once-per-crate', 'one generate_types + one check_write_file per crate, unconditional', 'write_multiple_files does not generate and write exactly once per crate, unconditionally', site)
+        fr = [x for x in c['guard'] if x.get('k') in ('for', 'if')]
+        return len(fr) == 1 and fr[0].get('k') == 'for' and vt.ckey(fr[0].get('over')) == lkey
+    gen = [c for c in f['calls'] if c.get('f') == 'generate_types' and any(x.get('k') == 'for' for x in c['guard'])]
+    wr = [c for c in f['calls'] if c.get('f') == 'check_write_file' and any(x.get('k') == 'for' for x in c['guard'])]
+    rep.check(len(gen) == 1 and in_loop(gen[0]) and len(wr) == 1 and in_loop(wr[0]), 'M3', 'write-loop:once-per-crate', 'one generate_types + one check_write_file per crate, unconditional', 'folder mode does not generate and write exactly once per crate, unconditionally', site)
     if wr:
         p = vt.show(wr[0]['args'][0])
-        rep.check('output_folder' in p and 'file_name' in p and 'join' in p, 'M3', 'write-loop:path', 'path = output_folder ⊕ that crate\'s file_name', f'files are written to `{p[:80]}`', site)
+        elem_fn = any(x.get('k') == 'atom' or x.get('k') == 'field' for x in vt.walk(wr[0]['args'][0])) and re.search(r'each\([^)]*\)[^ ]*\.file_name', p.replace(' ', '')) is not None
+        rep.check(elem_fn and 'join' in p, 'M3', 'write-loop:path', 'path = output_folder ⊕ that crate\'s file_name', f'files are written to `{p[:80]}`', site)
     pg = [c for c in f['calls'] if c.get('f') == 'post_generation']
     rep.check(len(pg) == 1 and not [x for x in pg[0]['guard'] if x.get('k') == 'for'], 'M3', 'post-generation-after-loop', 'post_generation once, after all files', 'post_generation is not called exactly once after the loop', site)
     # collector keyed by the file's own crate name (closure inside parallel_parse)
@@ -287,13 +293,18 @@ def m5(ctx, rep):
     site = {'file': f['file'], 'line': f['line']}
     mp = f['params'][0]['name']
     chains = []
-    for v in [f.get('tail')] + [l.get('over') for l in f['loops'] if l.get('kind') == 'for'] + [c.get('recv') for c in f['calls'] if c.get('f') in ('fold', 'collect', 'for_each', 'extend')]:
+    cands = [(f.get('tail'), False)] + [(l.get('over'), True) for l in f['loops'] if l.get('kind') == 'for'] + [(c.get('recv'), False) for c in f['calls'] if c.get('f') in ('fold', 'collect', 'for_each', 'extend')]
+    for v, is_loop in cands:
         v = vt.unvar(v)
         names = []
-        while isinstance(v, dict) and v.get('k') == 'call' and v.get('recv') is not None:
-            names.append(v.get('f'))
-            v = vt.unvar(v['recv'])
-        if isinstance(v, dict) and v.get('k') == 'atom' and v.get('root') == mp and not v.get('path') and names:
+        while isinstance(v, dict) and (v.get('k') in ('ref', 'paren', 'deref') or (v.get('k') == 'call' and v.get('recv') is not None)):
+            if v.get('k') == 'call':
+                names.append(v.get('f'))
+                v = vt.unvar(v['recv'])
+            else:
+                v = vt.unvar(v.get('v'))
+        # a `for` loop may iterate the map itself (`for (k, v) in file_mappings`)
+        if isinstance(v, dict) and v.get('k') == 'atom' and v.get('root') == mp and not v.get('path') and (names or is_loop):
             chains.append(names)
     if not chains:
         raise core.Incomplete('all_types: iteration over the crate map not found')
